@@ -139,7 +139,7 @@ def r6_attrs_docs(text: str, keep_attrs=(), keep_std_derives=False) -> List[Edit
         if ct[i].text == '#' and ct[i + 1].text == '[':
             close = match_close(ct, i + 1)
             name = ct[i + 2].text
-            if name in ('derive', 'inline', 'must_use', 'deprecated', 'ts', 'serde', 'allow', 'doc', 'non_exhaustive', 'default') and name not in keep_attrs:
+            if name in ('derive', 'inline', 'must_use', 'deprecated', 'ts', 'serde', 'allow', 'doc', 'non_exhaustive', 'default', 'builder', 'error') and name not in keep_attrs:
                 if name == 'derive' and keep_std_derives:
                     # native rendering only: keep the std-derivable traits so that code using ==, clone(), default() still compiles
                     names = [t.text for t in ct[i + 4:close - 1] if t.kind == 'ident' and t.text in _STD_DERIVES]
@@ -176,6 +176,175 @@ def r3_for_range(text: str, loop, ordinal: int) -> List[Edit]:
     ]
 
 
+def r7_enumerate(text: str, loop, ordinal: int) -> List[Edit]:
+    """R7: `for (I, X) in E.iter().enumerate() {` -> `let mut itN: usize = 0; while itN < E.len() {` followed,
+    directly after the `{`, by `let I = itN; let X = &E[itN]; itN += 1;` - the lowering of slice::Iter + Enumerate
+    (yields (i, &E[i]) for i in 0..E.len(); E cannot change during the loop because the original borrows it)."""
+    hdr = text[loop.header_start:loop.brace]
+    m = re.match(r'for\s*\(\s*([A-Za-z_]\w*)\s*,\s*([A-Za-z_]\w*)\s*\)\s+in\s+(.+?)\s*\.\s*iter\s*\(\s*\)\s*\.\s*enumerate\s*\(\s*\)\s*$', hdr, re.S)
+    if not m:
+        raise RsxError('unsupported-construct: R7 needs `for (I, X) in E.iter().enumerate()`, got: %s' % hdr.strip())
+    iv, xv, e = m.group(1), m.group(2), ' '.join(m.group(3).split())
+    it = 'it%d' % ordinal
+    new_hdr = 'let mut %s: usize = 0;\n        while %s < %s.len() ' % (it, it, e)
+    return [
+        Edit(loop.header_start, loop.brace, new_hdr, 'R7', 'for (%s, %s) in %s.iter().enumerate() -> while with counter %s' % (iv, xv, e, it)),
+        Edit(loop.brace + 1, loop.brace + 1, ' let %s = %s; let %s = &%s[%s]; %s += 1;' % (iv, it, xv, e, it, it), 'R7', 'loop variable bindings + increment at top of body'),
+    ]
+
+
+def r8_refcell(text: str, names) -> List[Edit]:
+    """R8: interior-mutability erasure for the listed parameters: `P: Rc<RefCell<T>>` -> `P: &mut T`,
+    `P.borrow_mut()` / `P.borrow()` -> `P`, `P.clone()` -> `&mut *P`.  Dropped: the dynamic borrow check of RefCell
+    (a double borrow would panic at run time) - every guard in the covered functions is a temporary that ends with its
+    statement; aliasing through other Rc handles during the call is assumed absent."""
+    out = []
+    ct = code_tokens(lex(text))
+    for i, t in enumerate(ct):
+        if t.kind != 'ident' or t.text not in names:
+            continue
+        nx = [x.text for x in ct[i + 1:i + 7]]
+        if nx[:5] == [':', 'Rc', '<', 'RefCell', '<']:
+            # character-level angle matching from the `<` after `Rc`
+            k0 = ct[i + 3].start
+            depth, k = 0, k0
+            while k < len(text):
+                if text[k] == '<':
+                    depth += 1
+                elif text[k] == '>' and text[k - 1] != '-':
+                    depth -= 1
+                    if depth == 0:
+                        break
+                k += 1
+            inner_start = ct[i + 6].start
+            # inner type = text between `RefCell<` and its closing `>` (the char before the final `>` of Rc)
+            inner = text[inner_start:k - 1] if text[k - 1] == '>' else text[inner_start:k]
+            # allow whitespace between the two closers
+            inner = text[inner_start:text.rfind('>', inner_start, k)]
+            j_end = k + 1
+            out.append(Edit(ct[i + 2].start, j_end, '&mut ' + inner.strip(), 'R8', '%s: Rc<RefCell<T>> -> &mut T' % t.text))
+        elif nx[:4] == ['.', 'borrow_mut', '(', ')'] or nx[:4] == ['.', 'borrow', '(', ')']:
+            if i > 0 and ct[i - 1].text == '.':
+                continue
+            out.append(Edit(t.end, ct[i + 4].end, '', 'R8', '%s.%s() -> %s' % (t.text, nx[1], t.text)))
+        elif nx[:4] == ['.', 'clone', '(', ')']:
+            if i > 0 and ct[i - 1].text == '.':
+                continue
+            out.append(Edit(t.start, ct[i + 4].end, '&mut *' + t.text, 'R8', '%s.clone() -> &mut *%s' % (t.text, t.text)))
+    return out
+
+
+def r9_str_slice(text: str, names) -> List[Edit]:
+    """R9: `&S[A..B]` (S one of the listed &str variables) -> `str_slice(S, A, B)`; str_slice is a border function
+    (stubs) requiring A <= B; the char-boundary / length precondition of str indexing is NOT checked."""
+    out = []
+    ct = code_tokens(lex(text))
+    for i, t in enumerate(ct):
+        if t.text == '&' and i + 2 < len(ct) and ct[i + 1].kind == 'ident' and ct[i + 1].text in names and ct[i + 2].text == '[':
+            close = match_close(ct, i + 2)
+            depth, cut = 0, None
+            for j in range(i + 3, close):
+                if ct[j].text in ('(', '[', '{'):
+                    depth += 1
+                elif ct[j].text in (')', ']', '}'):
+                    depth -= 1
+                elif ct[j].text == '..' and depth == 0:
+                    cut = j
+            if cut is None or cut == i + 3 or cut == close - 1:
+                raise RsxError('unsupported-construct: R9 needs `&S[A..B]`')
+            a = text[ct[i + 3].start:ct[cut - 1].end]
+            b = text[ct[cut + 1].start:ct[close - 1].end]
+            out.append(Edit(t.start, ct[close].end, 'str_slice(%s, %s, %s)' % (ct[i + 1].text, a, b), 'R9', '&%s[A..B] -> str_slice(%s, A, B)' % (ct[i + 1].text, ct[i + 1].text)))
+    return out
+
+
+def r10_inner_use(text: str) -> List[Edit]:
+    """R10: `use path;` statements inside a function body are deleted (name resolution only; the assembled file
+    defines the names at top level)."""
+    out = []
+    ct = code_tokens(lex(text))
+    # first `{` = body
+    depth = 0
+    for i, t in enumerate(ct):
+        if t.text == '{':
+            depth += 1
+        elif t.text == '}':
+            depth -= 1
+        elif t.text == 'use' and depth >= 1 and i > 0 and ct[i - 1].text in ('{', ';', '}'):
+            j = i
+            while j < len(ct) and ct[j].text != ';':
+                j += 1
+            s, end = t.start, ct[j].end
+            m = re.match(r'[ \t]*\n', text[end:])
+            ls = text.rfind('\n', 0, s) + 1
+            if m and text[ls:s].strip() == '':
+                s, end = ls, end + m.end()
+            out.append(Edit(s, end, '', 'R10', 'inner `%s` deleted' % ' '.join(text[t.start:ct[j].end].split())))
+        elif t.text == 'super' and depth >= 1 and i + 2 < len(ct) and ct[i + 1].text == '::' and ct[i + 2].kind == 'ident' \
+                and (i == 0 or ct[i - 1].text != '::'):
+            # `super::NAME` -> `NAME`: the assembled file is one flat module
+            out.append(Edit(t.start, ct[i + 2].start, '', 'R10', 'path prefix `super::` dropped before %s' % ct[i + 2].text))
+    return out
+
+
+def pub_fields(text: str) -> List[Edit]:
+    """field visibility of a struct -> `pub` (Verus needs public fields in public specs; no executable effect in a
+    single-file crate)"""
+    out = []
+    ct = code_tokens(lex(text))
+    k = 0
+    while k < len(ct) and ct[k].text != '{':
+        if ct[k].text in ('(', '['):
+            k = match_close(ct, k)
+        k += 1
+    if k >= len(ct):
+        return out
+    close = match_close(ct, k)
+    i = k + 1
+    while i < close:
+        # attributes
+        while i < close and ct[i].text == '#':
+            i = match_close(ct, i + 1) + 1
+        if i >= close:
+            break
+        st = i
+        if ct[i].text == 'pub':
+            i += 1
+            if ct[i].text == '(':
+                i = match_close(ct, i) + 1
+        if ct[i].kind == 'ident' and ct[i + 1].text == ':':
+            if st == i:
+                out.append(Edit(ct[i].start, ct[i].start, 'pub ', 'R6', 'field %s made pub' % ct[i].text))
+            elif text[ct[st].start:ct[i].start].strip() != 'pub':
+                out.append(Edit(ct[st].start, ct[i].start, 'pub ', 'R6', 'field %s: %s -> pub' % (ct[i].text, ' '.join(text[ct[st].start:ct[i].start].split()))))
+        # skip to next top-level comma
+        depth = 0
+        while i < close:
+            x = ct[i].text
+            if x in ('(', '[', '{'):
+                i = match_close(ct, i)
+            elif x == '<':
+                depth += 1
+            elif x == '>':
+                depth -= 1
+            elif x == '>>':
+                depth -= 2
+            elif x == ',' and depth <= 0:
+                i += 1
+                break
+            i += 1
+    return out
+
+
+def r12_static_str(text: str) -> List[Edit]:
+    """R12: in a `const` item, `&str` -> `&'static str` (the elided lifetime of a const is 'static; Verus wants it
+    written)"""
+    out = []
+    for m in re.finditer(r'&\s*str\b', text):
+        out.append(Edit(m.start(), m.end(), "&'static str", 'R12', "const type &str -> &'static str"))
+    return out
+
+
 def apply_edits(text: str, edits: List[Edit]):
     """apply right-to-left; drop edits nested in a deleted span; returns (new_text, applied)"""
     edits = sorted(edits, key=lambda e: (e.start, -(e.end - e.start)))
@@ -192,4 +361,4 @@ def apply_edits(text: str, edits: List[Edit]):
     return out, kept
 
 
-RULES = {'R1': r1_trace, 'R2': r2_debug_assert, 'R4': r4_clone_from, 'R5': r5_format, 'R6': r6_attrs_docs}
+RULES = {'R1': r1_trace, 'R2': r2_debug_assert, 'R4': r4_clone_from, 'R5': r5_format, 'R6': r6_attrs_docs, 'R10': r10_inner_use, 'R12': r12_static_str}
